@@ -73,6 +73,10 @@ Solver::Solver(Variables const &vs, Constraints const &cs)
         c->left->out.push_back(c);
         c->right->in.push_back(c);
         c->needsScaling = needsScaling;
+        // Every variable starts in a block of its own, so no constraint is
+        // active yet.  The constraints may have been left active by an
+        // earlier solver instance over the same objects.
+        c->active = false;
     }
     bs=new Blocks(vs);
 #ifdef LIBVPSC_LOGGING
